@@ -151,6 +151,16 @@ func runC06(t *sim.T, tier string) *sim.Violation {
 				inputs = append(inputs, c06Input{1, sib.Feed.Zip(zo), fmt.Sprintf("static%d-sibling", i)})
 			}
 		}
+		// a sibling whose header row is a different list of cells with the same joined text (caches keyed by
+		// the header as text)
+		if t.Chance(1, 3) {
+			sib := &gen.StaticModel{Feed: m.Feed.Clone(), Cfg: m.Cfg}
+			if d := gen.MergeHeaderCells(t, sib); d != "" {
+				t.Logf("static%d sibling: %s", i, d)
+				t.Probe("merged-header-sibling")
+				inputs = append(inputs, c06Input{1, sib.Feed.Zip(zo), fmt.Sprintf("static%d-merged-header-sibling", i)})
+			}
+		}
 		if t.Chance(1, 4) {
 			inputs = append(inputs, c06Input{1, append([]byte(nil), b[:t.Choose(len(b))]...), "static-truncated"})
 		}
